@@ -75,6 +75,11 @@ class P(flow.Plan):
                     descs.append({"act": "teardown"})
             if rng.random() < 0.5:
                 descs.append({"act": rng.choice(["flush", "teardown"])})
+            streams = [k + 1 for k, kind in enumerate(kinds) if kind in ("binary", "text")]
+            if streams and rng.random() < 0.3:
+                # the user closes a stream of their own, then tears the builder down (added after seed C14f: teardown flushed
+                # user streams and stopped half-way on the closed one); nothing is written in between
+                descs += [{"act": "add", "w": rng.randint(1, len(kinds))}, {"act": "close_stream", "w": rng.choice(streams)}, {"act": "teardown"}]
             traces.append(writers_rec.run_descs(descs, kinds, eol, {"driver": "random", "seed": sd * 65537 + i}))
             inputs.append({"kinds": kinds, "eol": eol, "descs": descs})
         return traces, inputs
